@@ -2,6 +2,7 @@
 import json
 import os
 import shutil
+import time
 import e2e
 import keeper
 import vlib
@@ -83,6 +84,57 @@ SCRIPTS = [
     [(_doc("Wireserver", None), "key", True), (None, "none", True), (_doc("Wireserver", None), "key", True), (_doc("Disabled", "@latched"), "none", True),
      (_doc("WireserverAndImds", None), "key", True)],
 ]
+
+
+def keepalive_signing(chk, binp):
+    """"the key used is the one the host names as latched" seen from a client connection that stays open across polls: after a
+    rotation its requests carry the new key, after the channel is disabled they are unsigned, after re-enabling signed again"""
+    import pipe
+    from checks import c10
+    stack = e2e.Stack(binp)
+    try:
+        callers = pipe.Callers(stack)
+        for ep in ("ws", "imds", "hostga"):
+            stack.ctl(f"rules {ep} none")
+        kp = keeper.Keeper(None, sd=stack.sd, attach=stack, interval_ms=15)
+        K1, K2, K3 = c10.K1, c10.K2, c10.K3
+        c = callers.caller(0, "curl", True)
+        conn = None
+        steps = [("latch", {"version": "1.0", "secureChannelState": "Wireserver", "keyGuid": None}, K1, K1),
+                 ("rotation", {"version": "1.0", "secureChannelState": "Wireserver", "keyGuid": None}, K2, K2),
+                 ("steady", {"version": "1.0", "secureChannelState": "Wireserver", "keyGuid": K2}, None, K2),
+                 ("disabled", {"version": "1.0", "secureChannelState": "Disabled", "keyGuid": K2}, None, None),
+                 ("enabled again", {"version": "1.0", "secureChannelState": "Wireserver", "keyGuid": None}, K3, K3)]
+        for what, doc, newkey, expect in steps:
+            plan = {"status": {"kind": "doc", "doc": doc}, "attest": {"kind": "ok"}}
+            if newkey:
+                plan["acquire"] = {"kind": "key", "guid": newkey, "key": c10.KEYS[newkey]}
+            if kp.step(plan, kick=True) is None:
+                chk.broken.append({"kind": "harness", "name": "keepalive-signing", "why": "no next poll after: " + what})
+                break
+            if conn is None:
+                conn = stack.connect(audit=(0, c["pid"], 1, e2e.IMDS[0], e2e.IMDS[1]))     # opened once, after the first latch
+            stack.hosts.take()
+            r = conn.request(e2e.build_request("GET", "/metadata/instance?step=" + what[:3], [(b"Host", b"h")]), b"GET", 5.0)
+            time.sleep(0.03)
+            recs = [x for x in stack.hosts.take() if not x.get("partial")]
+            chk.case(nontrivial_key=("keepalive-signing", what))
+            chk.count("keepalive_signing_steps")
+            d = {"step": what, "connection": "opened after the first latch and kept open", "status": r and r["status"]}
+            if not recs:
+                chk.disagreement("keeper-state", d, "request relayed", "nothing reached the host")
+                continue
+            g, okmac, prod = c10.verify(recs[0])
+            if expect is None and g is not None:
+                chk.violation("the channel is reported disabled but a request on an open connection is still signed", d, expected="unsigned", observed=g)
+            elif expect is not None and (g != expect or not okmac):
+                chk.violation("a request on an open connection is not signed with the key the host names as latched", d, expected=expect,
+                              observed={"announced": g, "mac_ok": okmac, "mac_made_with": prod})
+        if conn is not None:
+            conn.close()
+        kp.close()
+    finally:
+        stack.close()
 
 
 def run(chk):
@@ -197,6 +249,9 @@ def run(chk):
                 hist.append(plan["status"]["kind"] + ":" + json.dumps(plan["status"].get("doc", {}))[:80])
             outs = vlib.run_driver(m)
             chk.case(nontrivial_key=("hist", h, len(checks)))
+            prev_ids = ["", "", ""]     # the agent's rule ids (ws, imds, hostga) before the iteration at hand
+            attested_ok = set()         # guids whose attestation the host acknowledged in this history
+            named = set()               # guids a status document named as latched
             applied = {}                # redirect policy in force, accumulated from the H2 trace
             last_reported = None        # channel state reported at the last completed poll
             for ci, (idx, st, calls, files, plan, spec_idx) in enumerate(checks):
@@ -233,6 +288,15 @@ def run(chk):
                 doc = plan["status"].get("doc")
                 if plan["status"]["kind"] != "doc" and calls:
                     chk.violation("a failed status poll was followed by host key calls", d)
+                attested_ok.update(hx(c[1] or "") for c in calls if c[0] == "attest" and c[2])
+                if doc is not None and doc.get("keyGuid"):
+                    named.add(hx(doc["keyGuid"]))
+                held = got["key"].split(",")[0]
+                if held and held not in attested_ok and held not in named:
+                    chk.violation("the agent holds (and signs with) a key whose attestation the host never acknowledged and that no status document named",
+                                  dict(d, history=hist[:ci + 1][-8:]), expected="no key, or an attested / named one", observed=unhx(held).decode("utf-8", "replace"))
+                ids_after = (io["ids"].split(",") + ["", "", ""])[:3]
+                ids_after = ["" if x == "-" else x for x in ids_after]
                 for ent in (gpol.split(",") if gpol else []):
                     e_, _, v_ = ent.partition(":")
                     applied[e_] = v_
@@ -243,12 +307,20 @@ def run(chk):
                     # the document alone says what must hold after a complete poll (right-hand sides of the convergence theorems)
                     sp = keeper.parse_state(outs[spec_idx]) if spec_idx is not None else None
                     if sp and sp.get("valid") == "1":
-                        hd = dict(d, history=hist[:ci + 1][-8:])
+                        hd = dict(d, history=hist[:ci + 1][-8:], rule_ids_before=list(prev_ids))
                         if got["chan"] != sp["state"]:
                             chk.violation("after a complete poll the agent's channel state is not the one the document reports", hd,
                                           expected=unhx(sp["state"]).decode(), observed=unhx(got["chan"]).decode() if got["chan"] else "")
-                        for ep in ("ws", "imds", "hostga"):
+                        for epi, ep in enumerate(("ws", "imds", "hostga")):
                             # (an item whose id is empty is indistinguishable from "no item" for the id compare-and-set: host contract, DESIGN §8)
+                            if sp[ep] != "none" and got[ep] is not None:
+                                sid, smode, _ = sp[ep].split(";")
+                                sid = "" if sid == "-" else sid
+                                # rules are replaced when the id changes (documents re-using an id keep the first content: host contract)
+                                replaced_now = prev_ids[epi] != sid
+                                if replaced_now and unhx(sid).decode() == got[ep][0] and mode_display(unhx(smode).decode()) != got[ep][1]:
+                                    chk.violation("the rules the agent enforces for an endpoint are not in the mode the latest document gives them", hd,
+                                                  expected="%s: %s" % (ep, mode_display(unhx(smode).decode())), observed="%s: %s" % (ep, got[ep][1]))
                             if sp[ep] == "none" and got[ep] is not None and got[ep][0] != "":
                                 chk.violation("the latest document carries no rules for an endpoint but the agent still enforces rules there", hd,
                                               expected="%s: none" % ep, observed="%s: %r" % (ep, got[ep]))
@@ -263,11 +335,13 @@ def run(chk):
                         if not st_dis and wguid and got["key"].split(",")[0] not in [wguid] + attested_now:
                             chk.violation("after a complete poll the agent does not hold the key the host names as latched", hd,
                                           expected=unhx(wguid).decode(), observed=got["key"])
+                prev_ids = ids_after
             if h == 0:
                 chk.sample({"model_ops": [x[:160] for x in m[:4]], "model_out": [o[:200] for o in outs[:4]], "agent": checks[0][1]})
         finally:
             kp.close()
             shutil.rmtree(kp.sd, ignore_errors=True)
+    keepalive_signing(chk, binp)
     if chk.counts.get("done_1", 0) == 0:
         chk.broken.append({"kind": "gate", "name": "generator sanity", "why": "no iteration completed"})
     chk.coverage["rule"] = ("histories of 4-30 host answers in lock-step with the real key-keeper loop (status requests gated by the mock host): "
